@@ -55,6 +55,7 @@ class ProgressIndicator(object):
 
         self._auto_running = None
         self._auto_thread = None
+        self._display_lock = threading.Lock()
 
         self._start_time = None
         self._last_message_length = 0
@@ -150,11 +151,17 @@ class ProgressIndicator(object):
         if self._io.is_quiet():
             return
 
-        self._overwrite(
-            re.sub(
-                r"(?i){([a-z\-_]+)(?::([^}]+))?}", self._overwrite_callback, self._fmt
+        # The spinner thread and the caller's thread both redraw the line:
+        # building the frame, erasing the line and writing the frame
+        # must not interleave.
+        with self._display_lock:
+            self._overwrite(
+                re.sub(
+                    r"(?i){([a-z\-_]+)(?::([^}]+))?}",
+                    self._overwrite_callback,
+                    self._fmt,
+                )
             )
-        )
 
     def _overwrite_callback(self, matches):
         if hasattr(self, "_formatter_{}".format(matches.group(1))):
